@@ -38,7 +38,7 @@ def _pynumeric():
                 per_file.setdefault(f[len("src/strengths/"):-3], []).append(p["id"])
     out = []
     for f, props in sorted(per_file.items()):
-        for prefix, grp in (("PyNum", "PyNumeric"), ("PySet", "PySetters")):
+        for prefix, grp in (("PyNum", "PyNumeric"), ("PySet", "PySetters"), ("PyIdm", "PyIdioms")):
             mod = prefix + _camel(f)
             if os.path.exists(os.path.join(root, "lean", "Strengths", "Props", mod + ".lean")):
                 out.append({"target": "Strengths.Props." + mod, "file": "Strengths/Props/%s.lean" % mod, "groups": [grp],
@@ -50,7 +50,8 @@ PYNUMERIC_TRUSTED = ("Props/PyNum*.lean are inventories (AST walk) of rounding /
                      "astype, limited-digit formats and floor divisions per anchored Python file; they show the package never narrows a "
                      "number on purpose, not that float arithmetic is exact; Props/PySet*.lean are per-file path inventories of the "
                      "setters (store / raise / checking-call events, loops unrolled twice) showing that every setter validates before "
-                     "it stores; calls that may raise without being named check/valid/assert are not seen")
+                     "it stores; calls that may raise without being named check/valid/assert are not seen; Props/PyIdm*.lean are per-file "
+                     "inventories of identity comparisons, substring tests on literals, asserts, and/or used as values and *d.values()")
 
 
 def extend(mod, prop):
